@@ -140,7 +140,7 @@ func c13Run(c *core.Case, o *core.Outcome) {
 		// ramp (or constant) stage with `jitter: j`; the un-jittered rate is the same stage parsed with jitter 0
 		fileStage := ""
 		if profile != 6 && profile != 7 && profile != 8 && r.IntN(8) == 0 {
-			fileStage = pick(r, "ramp", "staged", "constant", "staged")
+			fileStage = pick(r, "ramp", "staged", "constant", "staged", "gaussian", "gaussian")
 			freq := pick(r, "100ms", "250ms", "1s", "2s")
 			a, bb := 1+r.IntN(400), 1+r.IntN(4000)
 			if bb == a {
@@ -154,6 +154,10 @@ func c13Run(c *core.Case, o *core.Outcome) {
 				}
 				if fileStage == "staged" {
 					body = fmt.Sprintf("  mode: staged\n  stages: \"0s:%d,%ds:%d\"\n  iteration-frequency: %s\n", a, length, bb, freq)
+				}
+				if fileStage == "gaussian" {
+					// a bell per 10-minute window, about a..a+bb iterations per one-second tick at its peak
+					body = fmt.Sprintf("  mode: gaussian\n  volume: %d\n  repeat: 10m\n  iteration-frequency: 1s\n  peak: %ds\n  standard-deviation: %ds\n  weights: \"\"\n", (a+bb)*300, 100+a%400, 60+bb%240)
 				}
 				y := fmt.Sprintf("scenario: s\nlimits:\n  max-duration: 100h\n  concurrency: 1\n  max-iterations: 0\n  ignore-dropped: true\ndefault:\n  distribution: none\n  jitter: 7\nstages:\n- duration: %ds\n%s  jitter: %g\n", length, body, jit)
 				rs, err := file.ParseConfigFile([]byte(y), time.Unix(0, 0))
